@@ -19,10 +19,14 @@
 //     dequeued one, is NOT observable and is not guessed: the acceptance check treats those two steps as internal.
 //     The job closure may be copied or moved any number of times by the queue; `copies` is a statistic, no verdict uses it.
 //   proc <lanes> <cancel_us> <base> <job>...
-//       cancel_us: -1 never; -2 cancel before any job is added; n>=0: n us after every job reported processStarted
+//       cancel_us: -1 never; -2 cancel before any job is added; n>=0: n us after every job reported processStarted;
+//                  n+m: as n, and the queue is destroyed m us after cancelAllJobs() returned WITHOUT waiting for the
+//                  completion callbacks first (the destructor has to get the children killed and reaped by itself);
+//                  the answer then ends with destroy_ms=<time from cancelAllJobs() returning to the destructor returning>
 //       base: "environ" (pass nullptr) or a list field of raw "K=V" entries
 //       job = <inherit><control><interruptible>:<reqenv>:<argv>      reqenv = khex=vhex;... or "."   argv = list field
-//       -> J<i> cb=<n> status=<name> exit=<raw> pid=<pid> started=<n> finished=<n> spawned=<0|1> len=<n> hash=<fnv1a64> out=<hex|~> err=<hex> mark=<-|0|1> alive=<0|1>  (joined by " | ")
+//       -> J<i> cb=<n> status=<name> exit=<raw> pid=<pid> started=<n> finished=<n> spawned=<0|1> len=<n> hash=<fnv1a64> out=<hex|~> err=<hex> cblen=<n> mark=<-|0|1> alive=<0|1>  (joined by " | ")
+//          cblen = number of output bytes that had been delivered when the completion callback ran (must equal len)
 //   pstorm <lanes|serial> <interval_us> <job>...
 //       like `proc <lanes> -1 environ ...` (serial: createSerialQueue) but from processStarted until the completion
 //       callback of a job a side thread sends SIGUSR1 (no-op handler installed WITHOUT SA_RESTART) to the thread that
@@ -264,7 +268,7 @@ struct ProcJob {
   int status = -99, exitCode = 0; long pid = -1;
   std::string out, err;
   // signal storm / ordering observation
-  std::string markFile; int markSeen = -1;
+  std::string markFile; int markSeen = -1; long lenAtCb = -1;
   pthread_t thr; std::atomic<bool> thrValid{false}, done{false};
 };
 
@@ -301,7 +305,9 @@ static uint64_t fnv1a(const std::string& s) {
 // runs the jobs (one process launch each) on a fresh queue; returns when every completion callback has fired
 static void onStormSignal(int) {}
 
-static void runProcs(ProcScenario& sc, int lanes, int cancelUs, const char* const* base, bool serial = false, int stormUs = -1) {
+static long gDestroyMs = -1;
+static void runProcs(ProcScenario& sc, int lanes, int cancelUs, const char* const* base, bool serial = false, int stormUs = -1, int destroyUs = -1) {
+  gDestroyMs = -1;
   ExecutionQueue* q = serial ? createSerialQueue(sc, base).release()
                              : createLaneBasedExecutionQueue(sc, lanes, SchedulerAlgorithm::FIFO, getDefaultQualityOfService(), base);
   std::atomic<bool> stormStop{false};
@@ -333,6 +339,7 @@ static void runProcs(ProcScenario& sc, int lanes, int cancelUs, const char* cons
         pj->done = true;
         if (!pj->markFile.empty()) pj->markSeen = access(pj->markFile.c_str(), F_OK) == 0 ? 1 : 0;
         std::lock_guard<std::mutex> g(s->mu);
+        pj->lenAtCb = (long)pj->out.size();
         pj->status = (int)r.status; pj->exitCode = r.exitCode;
         if (r.pid != (llbuild_pid_t)-1) pj->pid = (long)r.pid;
         pj->cb++;
@@ -345,6 +352,15 @@ static void runProcs(ProcScenario& sc, int lanes, int cancelUs, const char* cons
       sc.cv.wait_for(lk, std::chrono::seconds(20), [&] { return sc.nStarted + sc.nDone >= (int)std::min<size_t>(n, (size_t)lanes); }); }
     usleep_for(cancelUs);
     q->cancelAllJobs();
+  }
+  if (cancelUs >= 0 && destroyUs >= 0) {
+    // destroy inside the SIGKILL grace period: nothing but the destructor is left to get the children reaped
+    auto t0 = std::chrono::steady_clock::now();
+    usleep_for(destroyUs);
+    if (storm.joinable()) { stormStop = true; storm.join(); }
+    delete q;
+    gDestroyMs = std::chrono::duration_cast<std::chrono::milliseconds>(std::chrono::steady_clock::now() - t0).count();
+    return;
   }
   { std::unique_lock<std::mutex> lk(sc.mu);
     sc.cv.wait_for(lk, std::chrono::seconds(120), [&] { return sc.nDone >= (int)n; }); }
@@ -373,7 +389,7 @@ static std::string showProc(size_t i, ProcJob& j) {
     " finished=" + std::to_string(j.finished.load()) + " spawned=" + std::to_string(j.spawned.load()) +
     " len=" + std::to_string(j.out.size()) + " hash=" + std::to_string((unsigned long long)fnv1a(j.out)) +
     " out=" + (j.out.size() <= 4096 ? hex(j.out) : std::string("~")) + " err=" + hex(j.err) +
-    " mark=" + (j.markSeen < 0 ? std::string("-") : std::to_string(j.markSeen)) + " alive=" + std::to_string(pidAlive(j.pid));
+    " cblen=" + std::to_string(j.lenAtCb) + " mark=" + (j.markSeen < 0 ? std::string("-") : std::to_string(j.markSeen)) + " alive=" + std::to_string(pidAlive(j.pid));
   return o;
 }
 
@@ -388,7 +404,8 @@ static std::string runProcCmd(const SV& a0) {
     a = b;
   }
   if (a.size() < 5) return "ERR args";
-  int lanes = atoi(a[1].c_str()), cancelUs = atoi(a[2].c_str());
+  int lanes = atoi(a[1].c_str()), cancelUs = atoi(a[2].c_str()), destroyUs = -1;
+  if (a[2].find('+') != std::string::npos) destroyUs = atoi(a[2].substr(a[2].find('+') + 1).c_str());
   SV baseStore; std::vector<const char*> basePtrs; const char* const* base = nullptr;
   if (a[3] != "environ") { baseStore = unlist(a[3]); for (auto& s : baseStore) basePtrs.push_back(s.c_str()); basePtrs.push_back(nullptr); base = basePtrs.data(); }
   ProcScenario sc;
@@ -404,11 +421,12 @@ static std::string runProcCmd(const SV& a0) {
     sc.jobs.push_back(std::move(j));
   }
   auto t0 = std::chrono::steady_clock::now();
-  runProcs(sc, lanes, cancelUs, base, serial, stormUs);
+  runProcs(sc, lanes, cancelUs, base, serial, stormUs, destroyUs);
   long ms = std::chrono::duration_cast<std::chrono::milliseconds>(std::chrono::steady_clock::now() - t0).count();
   std::string out;
   for (size_t i = 0; i < sc.jobs.size(); i++) { if (i) out += " | "; out += showProc(i, *sc.jobs[i]); }
   out += " | elapsed_ms=" + std::to_string(ms);
+  if (gDestroyMs >= 0) out += " | destroy_ms=" + std::to_string(gDestroyMs);
   return out;
 }
 
